@@ -142,3 +142,75 @@ PROPS["C10"]["runs"] = PROPS["C10"]["runs"] + [
     {"entry": ASA_ACL, "quick": {"N": "2", "K": "4", "G": "1", "cut": "1"}, "thorough": {"N": "2", "K": "6", "G": "1", "cut": "1"}, "extra": {"maxpaths": 3000000}, "covers": ["resumed after cut"]},
     {"entry": NSX, "quick": {"N": "1", "G": "1", "seqs": "1", "cut": "1"}, "thorough": {"N": "2", "G": "1", "seqs": "1", "cut": "1"}, "extra": {"maxpaths": 5000000}, "covers": ["resumed after cut"]},
 ]
+
+DEV = M + "/pkg/device."
+DOAPP = M + "/pkg/doapprove."
+_dlg_level = "Bounded symbolic execution (gosx) of the real device.ApproveOrCompare -> getRealDevice, loadDevice, (asa|ios|linux).LoadDevice, cisco.LoginEnable/checkBanner, checkDeviceName, console.* (GetSSHConn, Send, expectLog, StripEcho, ...), getCompare, approve/compare, ApplyCommands, cmd, isValidOutput, writeMem, errlog.Abort/HandleAbort against a line-oriented device simulator (harness Go code, itself symbolically executed) reached through stubs of the goexpect library; fault kind and dialogue position are solver variables. Counterexamples are replayed natively: the real binary code talks to the same simulator running as an external process behind a real pty and the real goexpect."
+PROPS["C09"] = {
+    "explanation": _dlg_level + " C09: after a device-side failure (error text, unexpected output, garbled echo, no answer, connection closed, unconfirmed write memory, non-zero exit status on Linux) at any position, no further change command and no save is sent, exit status != 0, ERROR>>> printed; do-approve level: status file FAILED/DIFF, history END: FAILED; OK only if all commands were sent and the save confirmed.",
+    "bounds": {"quick": "ASA, IOS, Linux: one fixed change script each (3-6 commands incl. joined replacement), one fault of 8 (Linux 5) kinds at every dialogue position; do-approve.Main approve and compare on ASA", "thorough": "same (the fault space is exhausted)"},
+    "outside": "NSX and PAN-OS (HTTP) dialogues, two or more faults, chunked arrival / timing of device output, local file system faults, other change scripts",
+    "selftest": "asa_simul|ios_simul|linux_simul",
+    "runs": [
+        {"entry": DEV + "VerifDialogueASA", "params": {"mode": "approve"}, "covers": ["failure injected", "approve succeeded", "fault reached"]},
+        {"entry": DEV + "VerifDialogueIOS", "params": {"mode": "approve"}, "covers": ["failure injected", "approve succeeded"]},
+        {"entry": DEV + "VerifDialogueLinux", "params": {"mode": "approve"}, "covers": ["failure injected", "fault reached"]},
+        {"entry": DOAPP + "VerifDoApprove", "params": {"action": "approve"}, "covers": ["failure injected", "OK recorded"]},
+        {"entry": DOAPP + "VerifDoApprove", "params": {"action": "compare"}, "covers": ["failure injected"]},
+    ],
+}
+PROPS["C11"] = {
+    "explanation": _dlg_level + " C11: in compare mode (device.ApproveOrCompare isCompare, doapprove.Main compare) no line of the computed change script, no 'write memory', no reload command is ever sent, whatever fault is injected at whatever position; the only configuration-mode sequence is the ASA terminal width triple.",
+    "bounds": {"quick": "ASA, IOS, Linux with a non-empty difference; one fault of 8 (5) kinds at every position; do-approve compare on ASA", "thorough": "same"},
+    "outside": "NSX / PAN-OS, drc -C flag parsing (drc.Main is covered by the C12 harness), interlock outcomes other than faults",
+    "selftest": "asa_simul|ios_simul",
+    "runs": [
+        {"entry": DEV + "VerifDialogueASA", "params": {"mode": "compare"}, "covers": ["compare run checked"]},
+        {"entry": DEV + "VerifDialogueIOS", "params": {"mode": "compare"}, "covers": ["compare run checked"]},
+        {"entry": DEV + "VerifDialogueLinux", "params": {"mode": "compare"}, "covers": ["compare run checked"]},
+        {"entry": DOAPP + "VerifDoApprove", "params": {"action": "compare"}, "covers": ["compare run checked"]},
+    ],
+}
+PROPS["C06"] = {
+    "explanation": _dlg_level + " C06: reported hostname (expected / other / expected with suffix), marker (login banner on ASA/IOS, /etc/issue on Linux) present or absent and 'checkbanner' configured or not are solver-chosen; for a wrong or unmanaged device no change command, no configuration mode (except the ASA terminal-width triple), no reload and no save may appear in the transcript and the run must fail with ERROR>>>; without configured banner text approve must work normally.",
+    "bounds": {"quick": "ASA, IOS, Linux at device.ApproveOrCompare level: 3 (2) hostnames x marker x checkbanner", "thorough": "same"},
+    "outside": "PAN-OS (vsys marker, HA state) and NSX; approve via drc.Main / do-approve (covered for ASA by C12/C09 harnesses only with a managed device)",
+    "selftest": "asa_simul|ios_simul|linux_simul",
+    "runs": [
+        {"entry": DEV + "VerifUnmanagedASA", "covers": ["wrong or unmanaged device", "managed device", "banner check not configured"]},
+        {"entry": DEV + "VerifUnmanagedIOS", "covers": ["wrong or unmanaged device", "managed device", "banner check not configured"]},
+        {"entry": DEV + "VerifUnmanagedLinux", "covers": ["wrong or unmanaged device", "managed device", "banner check not configured"]},
+    ],
+}
+PROPS["C15"] = {
+    "explanation": _dlg_level + " C15: ios.ApplyCommands, prepareDevice, scheduleReload, sendReloadCmd, cmd, stripReloadBanner, extendReload, cancelReload, writeMem with one asynchronous reload banner (2:00 / 1:00, with or without fresh prompt) inserted at a solver-chosen byte offset of the echo of a solver-chosen change command: every change command lies between 'reload in' and 'reload cancel', write memory behind the cancel, no reload pending at the end, 1:00 warning re-armed before the next change command, outcome identical to the banner-free run.",
+    "bounds": {"quick": "one change script of 5 lines (two inserts, one joined replacement, one delete), one banner per run, all offsets 0..45, 4 banner forms", "thorough": "same plus the fault dialogue of C09 on IOS"},
+    "outside": "more than one banner per run, banner forms not in the repository's scenario, banner with prompt in the middle of an echo, chunked arrival, 'reload in' asking no question, write memory variants (NVRAM confirm, open failed)",
+    "selftest": "ios_simul",
+    "runs": [
+        {"entry": DEV + "VerifBannerIOS", "covers": ["one-minute warning shown", "two-minute banner shown"]},
+        {"entry": DEV + "VerifDialogueIOS", "params": {"mode": "approve"}, "classes": ["C15"]},
+    ],
+}
+PROPS["C17"] = {
+    "explanation": _dlg_level + " C17: the login password (with characters that need URL escaping) is searched in every sink: session logs .login/.config/.change/.cmp, run log, history, status file, stdout, stderr, for success and for every fault kind/position (assertions inside the C06/C09/C11 harnesses).",
+    "bounds": {"quick": "ASA, IOS, Linux SSH dialogues incl. do-approve on ASA; all fault kinds/positions of C09", "thorough": "same"},
+    "outside": "PAN-OS API key and NSX session token / password in URLs, bodies and transport errors (HTTP stubs not built yet); passwords entered interactively",
+    "selftest": "asa_simul",
+    "runs": [
+        {"entry": DEV + "VerifDialogueASA", "params": {"mode": "approve"}},
+        {"entry": DEV + "VerifDialogueIOS", "params": {"mode": "approve"}},
+        {"entry": DEV + "VerifDialogueLinux", "params": {"mode": "approve"}},
+        {"entry": DEV + "VerifUnmanagedASA"},
+        {"entry": DOAPP + "VerifDoApprove", "params": {"action": "approve"}},
+        {"entry": DOAPP + "VerifDoApprove", "params": {"action": "compare"}},
+    ],
+}
+PROPS["C12"] = {
+    "explanation": "Reduced claim. Bounded symbolic execution (gosx) of the real doapprove.Main and drc.Main (pflag parsing, program.LoadConfig, device.SetLock with syscall.Flock stubbed, openHistoryLog, ApproveOrCompare, status.Set*) for both verbs, three spellings of the device (name, absolute and relative path, ipv6 path), every fault kind/position of the C09 dialogue and a solver-chosen lock state: a contender (lock held) must print 'Approve in progress', exit 1 and leave device, status, history and logs untouched; a holder must hold basedir/lock/<device> whenever the device receives a line (probe from the simulator) and release it at the end. Natively replayed with a really held flock.",
+    "level_note": "OS-level interleavings, kill points and the kernel's release-on-exit are NOT explored; they follow from the trusted flock contract (exclusive per open file description, released on close/exit/kill) together with the decided facts that every access is dominated by a successful LOCK_EX|LOCK_NB on the same file for every spelling and that a failed lock attempt touches nothing.",
+    "bounds": {"quick": "2 front ends x 2 verbs x 3 spellings x lock held/free x 8 fault kinds x all positions", "thorough": "same"},
+    "outside": "real concurrency of processes, crash points, NFS or other file systems where flock differs, devices other than ASA",
+    "selftest": "do-approve|drc",
+    "runs": [{"entry": DOAPP + "VerifLock", "covers": ["contender while the device is held", "holder"]}],
+}
